@@ -225,8 +225,17 @@ pub fn shade(fam: &str, seed: u64, n: usize) -> Vec<Value> {
                        "spread": *r.pick(&["Pad", "Repeat", "Reflect"])})
             }
         };
-        out.push(json!({"id": format!("drv-{}-{}-{}", fam, seed, i), "fam": "shade", "w": 8, "h": 8, "den": 1,
-                         "ctm": {"m": c.0, "mden": c.1}, "alpha": alpha(&mut r), "via": "fill", "src": src}));
+        let mut sc = json!({"id": format!("drv-{}-{}-{}", fam, seed, i), "fam": "shade", "w": 8, "h": 8, "den": 1,
+                         "ctm": {"m": c.0, "mden": c.1}, "alpha": alpha(&mut r), "via": "fill", "src": src});
+        // one scenario in four is drawn (SrcOver) through a clip path whose left edge slants, so that spans start
+        // left of the clip's coverage
+        if r.chance(1, 4) {
+            let clips = [json!({"ops": [["M", 3, 0], ["L", 8, 0], ["L", 8, 8], ["L", 0, 8]]}),
+                         json!({"ops": [["M", 0, 0], ["L", 5, 0], ["L", 8, 8], ["L", 2, 8]]}),
+                         json!({"ops": [["M", 4, 0], ["L", 8, 4], ["L", 4, 8], ["L", 0, 4]]})];
+            sc["clip"] = r.pick(&clips).clone();
+        }
+        out.push(sc);
     }
     out
 }
